@@ -363,7 +363,7 @@ theorem parseWithMetadata_sound (s t m : Bytes) (h : parseWithMetadata s = .ok (
 
 theorem hop_some (id : Bytes) (h : Hop) (c : Ctx) (hh : hop (some id) h = .ok c) : c = some id := by
   cases h with
-  | http ex =>
+  | http ex recv =>
     simp only [hop, injectHTTP, extractOrgID] at hh
     by_cases h1 : ex ≠ [] ∧ ex ≠ id
     · simp [h1] at hh
@@ -373,7 +373,7 @@ theorem hop_some (id : Bytes) (h : Hop) (c : Ctx) (hh : hop (some id) h = .ok c)
       · simp [h2] at hh
       · simp only [h2, if_false] at hh
         injection hh with hh; exact hh.symm
-  | grpc ex =>
+  | grpc ex recv =>
     simp only [hop, injectGRPC, extractOrgID] at hh
     cases ex with
     | none => simp only [extractGRPC] at hh; injection hh with hh; exact hh.symm
